@@ -19,6 +19,7 @@ package service
 //@ property C07 roots (*service).processUnsubscribe, (*service).processSubscribe, (*github.com/mdzio/go-mqtt/message.SubackMessage).AddReturnCodes, (*github.com/mdzio/go-mqtt/message.SubackMessage).AddReturnCode, (*github.com/mdzio/go-mqtt/message.SubscribeMessage).Decode, (*github.com/mdzio/go-mqtt/message.UnsubscribeMessage).Decode, (*github.com/mdzio/go-mqtt/message.SubackMessage).Encode, (*github.com/mdzio/go-mqtt/topics.Manager).Subscribe, (*github.com/mdzio/go-mqtt/topics.Manager).Unsubscribe
 //@ property C11 roots (*Server).handleConnection, (*Server).getSession, (*github.com/mdzio/go-mqtt/message.ConnectMessage).Decode, (*github.com/mdzio/go-mqtt/message.ConnectMessage).decodeMessage, (*github.com/mdzio/go-mqtt/message.ConnectMessage).validClientID, (*github.com/mdzio/go-mqtt/message.ConnackMessage).Encode
 //@ property C05 roots (*buffer).Close, (*buffer).Read, (*buffer).ReadPeek, (*buffer).ReadWait, (*buffer).ReadCommit, (*buffer).Write, (*buffer).WriteWait, (*buffer).WriteCommit, (*buffer).waitForWriteSpace, (*buffer).ReadFrom, (*buffer).WriteTo, (*service).onPublish, getMessageBuffer, getConnectMessage, (*service).peekMessageSize, (*service).peekMessage, (*github.com/mdzio/go-mqtt/message.ConnectMessage).Decode
+//@ property C08 roots (*service).start$1, (*service).processSubscribe, (*service).publish, (*github.com/mdzio/go-mqtt/message.PublishMessage).SetRetain, (*github.com/mdzio/go-mqtt/message.PublishMessage).SetQoS, (*github.com/mdzio/go-mqtt/topics.Manager).Retain, (*github.com/mdzio/go-mqtt/topics.Manager).Retained
 //@ property C19 roots (*service).processIncoming, (*service).receiver, (timeoutReader).Read, (*service).stop, (*github.com/mdzio/go-mqtt/sessions.Session).Update
 //@ property C01 roots (*service).onPublish, (*Server).Publish, (*service).processUnsubscribe
 //@ property C17 roots (*service).writeMessage, (*stat).increment, (*buffer).WriteTo, (*buffer).ReadPeek, (*buffer).ReadCommit, (*buffer).ReadFrom
@@ -844,3 +845,17 @@ func vspecCovered(x int64, start int64, c int64, size int64) bool {
 //@   ensures[C01:fanout] err == nil ==> gfield(0, "ncb") >= old(gfield(0, "ncb"))
 //@   ensures[C01,C05:no-abort] err != nil ==> gfield(0, "ncb") == old(gfield(0, "ncb"))
 //@   modifies modset(Callback), msg.remlen, msg.dirty, msg.packetID, modset(TopicStore), fields(svr), allelems(interface{})
+
+// ---------------------------------------------------------------- retained flag on forwarded messages (C08)
+// The broker-side subscriber callback of a connection: a message forwarded because of an existing subscription is
+// sent with the retain flag cleared (MQTT-3.3.1-9), and the flag of the shared message object is restored afterwards.
+//@ closure (*service).start$1
+//@   results err
+//@   requires svc != nil && (*svc) != nil && msg != nil && len(msg.mtypeflags) == 1 && vdefOut((*svc)) && (*svc).sess != nil && vdefQ((*svc).sess.Pub1ack) && vdefQ((*svc).sess.Pub2out)
+//@   requires message.Type(msg.mtypeflags[0]>>4) == message.PUBLISH && ((*svc).out != nil ==> arr(msg.mtypeflags) != arr((*svc).out.buf)) && arr(msg.mtypeflags) != arr((*svc).outtmp)
+//@   rely modifies (*svc).out.pseq.cursor, (*svc).out.pseq.gate, (*svc).out.cseq.cursor, (*svc).out.done, (*svc).out.pwait, elems((*svc).out.buf)
+//@   rely ensures vdefRing((*svc).out) && arr((*svc).outtmp) != arr((*svc).out.buf)
+//@   atcall (*service).publish requires[C08:forwarded-without-retain] msg.mtypeflags[0]%2 == 0
+//@   atcall (*service).publish assumes unchanged(msg.mtypeflags)
+//@   ensures[C08:retain-restored] err == nil ==> msg.mtypeflags[0] == old(msg.mtypeflags[0])
+//@   modifies modset(Callback), modset(Out), modset(AckQ), heap("GF.ncomp"), msg.remlen, msg.dirty, msg.packetID, gfield((*svc), "n3"), gfield((*svc), "id3")
